@@ -32,6 +32,16 @@ def fault_jobs(rng, nh, thorough, per_op=40):
     g = gen.Gen(rng.randrange(1 << 30), handles=0.0)          # ... and one whose batch has several hundred points
     hist.append((1, [{"op": "insert", "p": g.point(0), "m": -1, "compact": 0},
                      {"op": "insert_multiple", "ps": [g.point(t=min(gen.NT - 1, 1 + k // 12)) for k in range(300)], "m": -1, "bad": 0}], g))
+    # ... and two in which the index is rebuilt from storage: by the first read after an out-of-order insert, by reindex(), after an update
+    NOOP = {"k": "meas", "key": 0, "key2": 0, "mf": 0, "op": "noop", "v": 0, "tf": 0}
+    for ai in (1, 0):
+        g = gen.Gen(rng.randrange(1 << 30), handles=0.0)
+        hist.append((ai, [{"op": "insert", "p": g.point(5), "m": -1, "compact": 0}, {"op": "insert", "p": g.point(3), "m": -1, "compact": 0},
+                          {"op": "insert", "p": g.point(4), "m": -1, "compact": 0}, {"op": "count", "q": NOOP, "m": -1},
+                          {"op": "insert", "p": g.point(1), "m": -1, "compact": 0}, {"op": "reindex"},
+                          {"op": "update", "q": NOOP, "m": -1, "fail": 0,
+                           "u": {"tk": 0, "tv": 0, "mk": 1, "mv": 3, "tgk": 0, "tgv": [], "fdk": 0, "fdv": [], "utg": [], "ufd": []}},
+                          {"op": "get_timestamps", "m": -1}], g))
     nh = len(hist)
     # every eighth history runs on a database opened with access_mode="w+" (emptied when opened, never by a later reopen)
     hopts = [({"mode": "w+"}, {"csv": {"access_mode": "w+"}}) if i % 8 == 5 else ({}, {}) for i in range(len(hist))]
@@ -46,7 +56,13 @@ def fault_jobs(rng, nh, thorough, per_op=40):
                 continue
             ks = list(range(len(calls)))
             if len(ks) > per_op and not thorough:
-                ks = sorted(rng.sample(ks, per_op))
+                # stratified: the first, a middle and the last occurrence of every kind of call, the rest at random
+                must = set()
+                for name in set(calls):
+                    occ = [x for x in ks if calls[x] == name]
+                    must |= {occ[0], occ[len(occ) // 2], occ[-1]}
+                rest = [x for x in ks if x not in must]
+                ks = sorted(must | set(rng.sample(rest, max(0, min(len(rest), per_op - len(must))))))
             reads = [{"op": "count", "q": {"k": "meas", "key": 0, "key2": 0, "mf": 0, "op": "noop", "v": 0, "tf": 0}, "m": -1},
                      {"op": "all", "m": -1, "sorted": 0},
                      {"op": "search", "q": g.atom(), "m": -1, "sorted": 1},
